@@ -33,7 +33,12 @@ type ConCase struct {
 	Mandatory   bool       `json:"mandatory"` // the list has a mandatory leaf
 	Min, Max    int        // 0 = no statement
 	Entries     []ConEntry `json:"entries"`
+	// Expr: a must or when on a leaf of the list that holds in every tree (it names the key of the entry, or counts it,
+	// or measures the leaf's own value): 0 none, 1-4 the forms of conExprs
+	Expr int `json:"expr,omitempty"`
 }
+
+var conExprs = []struct{ leaf, must, when string }{{}, {"gip", "../gk", ""}, {"gport", "count(../gk) = 1", ""}, {"gip", "", "../gk"}, {"gip", "string-length(.) > 0", ""}}
 
 func genCon(t *rapid.T) ConCase {
 	g := &sg.G{T: t}
@@ -41,6 +46,9 @@ func genCon(t *rapid.T) ConCase {
 		Min: []int{0, 0, 1, 2}[g.Pick(4, "min")], Max: []int{0, 0, 2, 3}[g.Pick(4, "max")]}
 	if c.Max != 0 && c.Max < c.Min {
 		c.Max = c.Min
+	}
+	if g.Chance(1, 4, "expr") {
+		c.Expr = 1 + g.Pick(len(conExprs)-1, "whichexpr")
 	}
 	n := 1 + g.Pick(4, "entries")
 	for i := 0; i < n; i++ {
@@ -63,6 +71,16 @@ func (c ConCase) mods() []*sg.Mod {
 		{Kind: "leaf", Name: "gk", Type: str()}, {Kind: "leaf", Name: "gip", Type: str()}, port}}
 	if c.Mandatory {
 		l.Kids = append(l.Kids, &sg.Node{Kind: "leaf", Name: "gmand", Type: str(), Mandatory: "true"})
+	}
+	if c.Expr > 0 && c.Expr < len(conExprs) {
+		for _, k := range l.Kids {
+			if e := conExprs[c.Expr]; k.Name == e.leaf {
+				k.When = e.when
+				if e.must != "" {
+					k.Musts = []sg.Must{{Expr: e.must}}
+				}
+			}
+		}
 	}
 	if c.Min > 0 {
 		l.Min = fmt.Sprint(c.Min)
@@ -186,6 +204,9 @@ func checkCon(c ConCase) fw.Outcome {
 	} else {
 		out.Labels = append(out.Labels, "keeps-all")
 	}
+	if c.Expr > 0 {
+		out.Labels = append(out.Labels, "must-or-when")
+	}
 	out.NonTrivial = usesDefault || len(broken) > 0
 	for i := range encNames {
 		var b []byte
@@ -203,6 +224,12 @@ func checkCon(c ConCase) fw.Outcome {
 			if pan != nil {
 				out.Violation = fmt.Sprintf("%s decoder panicked (validation %v): %v\n%s\n%s", encNames[i], validate, pan, b, src)
 				return out
+			}
+			if validate && err != nil && c.Expr > 0 && (strings.Contains(err.Error(), "invalid memory address or nil pointer dereference") || strings.Contains(err.Error(), "Stack underflow")) &&
+				fw.Known("c19.validator-runs-paths-without-data-tree") {
+				// known finding: schema/validate.go runs must and when through xpath.NewCtxFromMach, which has no path stack
+				out.Labels = append(out.Labels, "known:must-when-paths")
+				continue
 			}
 			if validate && len(broken) > 0 {
 				if err == nil {
@@ -234,7 +261,7 @@ func checkCon(c ConCase) fw.Outcome {
 var constraints = fw.Register(&fw.Prop[ConCase]{
 	ID: "C19", Name: "constraints",
 	Rule: "a list with a unique set over two leaves (one of them with or without a default), an optional mandatory leaf and optional min-/max-elements, placed below the top container, a presence container, " +
-		"an entry of an outer list or a case of a choice, with or without a defaulted leaf directly below the top container; 1-4 entries that give or omit each leaf; oracle: the constraints the data breaks " +
+		"an entry of an outer list or a case of a choice, with or without a defaulted leaf directly below the top container, a quarter with a must or when on a leaf that holds in every tree; 1-4 entries that give or omit each leaf; oracle: the constraints the data breaks " +
 		"are computed from it (RFC 6020 7.8.3 with defaults counted, 7.6.5, 7.7.3/7.7.4): every validating decoder rejects exactly the trees that break one; a non-validating decoder returns the tree as written (or an error, for a tree that breaks a " +
 		"constraint); accepted trees round-trip unchanged; non-trivial = a constraint is broken or a default takes part in the unique set",
 	Gen: genCon, Check: checkCon, Weight: 0.15,
